@@ -103,7 +103,8 @@ EthReasons(s) ==
        <<s.payer, "eth-fee-payer">>,
        <<s.granter, "eth-fee-granter">>,
        <<s.memo, "eth-memo">>,
-       <<s.timeout, "eth-timeout">>,
+       (* the rule only distinguishes zero from non-zero: EVERY non-zero magnitude class is refused *)
+       <<s.timeout # "zero", "eth-timeout">>,
        (* P: "its declared fee and gas limit equal those of the embedded Ethereum transaction" *)
        <<s.fee # "eq", "eth-fee-mismatch">>,
        <<s.gas # "eq", "eth-gas-mismatch">> >>
@@ -130,7 +131,7 @@ CosmosReasons(s) ==
           a transaction without signer infos is refused with "no signatures supplied") *)
        <<~(s.sigs /\ s.sinfos), "cosmos-unsigned">>,
        (* outside the enumerated domain: Cosmos-lane fee payer / granter semantics are not C07's business *)
-       <<s.payer \/ s.granter \/ s.fee # "eq" \/ s.gas # "eq" \/ s.ethType # "legacy", "outside-domain">> >>
+       <<s.payer \/ s.granter \/ s.fee # "eq" \/ s.gas # "eq" \/ s.ethType # "legacy" \/ s.timeout \notin {"zero", "future"}, "outside-domain">> >>
 
 Reasons(s) == IF SoleEth(s) THEN EthReasons(s) ELSE CosmosReasons(s)
 
@@ -170,15 +171,26 @@ MustRunEvm(s) == EthLane(s) /\ Verdict(s) = "accept" /\ s.mode \in {"simulate", 
 (* fee / gas: the declared fee amount / gas limit relative to the embedded Ethereum transaction's: equal, one more,
    one less, (fee only) the same amount of another denomination, no fee coin at all.  ethType: legacy, EIP-1559
    dynamic-fee, EIP-2930 access-list transaction (its fee is gas x price, resp. gas x fee cap). *)
-AllFeeVars == {"eq", "more", "less", "denom", "none"}
-AllGasVars == {"eq", "more", "less"}
+(* Magnitude classes of the numeric envelope fields (symbolic: the harness maps them to the real numbers; they never
+   enter TLC's 32-bit integers):
+     timeout height  zero | one (1) | cur (current height) | future (current + 10^6) | maxi64 (2^63-1) | two63 (2^63)
+                     | two63k (2^63 + 12345) | maxu64 (2^64-1)
+     fee amount      eq | more | less | denom | none | zero (an explicit 0 coin) | one | maxi64 | two63 | maxu64
+     gas limit       eq | more | less | zero | one | maxi64 | two63 | maxu64
+   For the Ethereum lane the rule knows "zero / non-zero" (timeout) and "equal / not equal" (fee, gas) only: every other
+   class must be refused, whatever its magnitude.  The Cosmos lane is enumerated with timeout zero / future only. *)
+TimeoutVars == {"zero", "one", "cur", "future", "maxi64", "two63", "two63k", "maxu64"}
+Magnitudes  == {"zero", "one", "maxi64", "two63", "maxu64"}
+AllFeeVars == {"eq", "more", "less", "denom", "none"} \cup Magnitudes
+AllGasVars == {"eq", "more", "less"} \cup Magnitudes
 EthTypes   == {"legacy", "dyn", "al"}
 ShapeFields == {"msgs", "ext", "sigs", "sinfos", "payer", "granter", "memo", "timeout", "fee", "gas", "ethType", "mode"}
 
 WellFormed(s) ==
   /\ DOMAIN s = ShapeFields
   /\ s.ext \in ExtKinds /\ s.mode \in Modes
-  /\ \A f \in {"sigs", "sinfos", "payer", "granter", "memo", "timeout"} : s[f] \in BOOLEAN
+  /\ \A f \in {"sigs", "sinfos", "payer", "granter", "memo"} : s[f] \in BOOLEAN
+  /\ s.timeout \in TimeoutVars
   /\ s.fee \in AllFeeVars /\ s.gas \in AllGasVars /\ s.ethType \in EthTypes
   /\ \A i \in 1..Len(s.msgs) :
        LET el == s.msgs[i] IN
@@ -195,6 +207,9 @@ WellFormed(s) ==
 (*               flags x fee variants x gas variants x 4 modes             *)
 (*  EthTyped     the same for EIP-1559 / EIP-2930 transactions (clean      *)
 (*               envelope, every fee / gas variant)                        *)
+(*  EthBounds    clean legacy envelope x every magnitude class of timeout  *)
+(*               height, fee amount and gas limit (0, 1, 2^63-1, 2^63,     *)
+(*               2^64-1, ...) x 4 modes                                    *)
 (*  Singles      every other single element (every leaf kind at every      *)
 (*               exec depth 0..MaxD, sibling pairs inside exec) x ext kind *)
 (*               x signed/unsigned x modes; plus memo/timeout variants     *)
@@ -214,7 +229,7 @@ ST(msgs, ext, sigs, sinfos, payer, granter, memo, timeout, fee, gas, typ, mode) 
 S(msgs, ext, sigs, sinfos, payer, granter, memo, timeout, fee, gas, mode) ==
   ST(msgs, ext, sigs, sinfos, payer, granter, memo, timeout, fee, gas, "legacy", mode)
 
-Cos(msgs, ext, sg, memo, timeout, mode) == S(msgs, ext, sg, sg, FALSE, FALSE, memo, timeout, "eq", "eq", mode)
+Cos(msgs, ext, sg, memo, timeout, mode) == S(msgs, ext, sg, sg, FALSE, FALSE, memo, IF timeout THEN "future" ELSE "zero", "eq", "eq", mode)
 
 BadSiblings == {"eth", "vest1", "vest2", "vest3", "vest1p", "g_eth", "g_vest1"}
 SiblingPairs == {<<"send", "send">>} \cup {<<"send", b>> : b \in BadSiblings} \cup {<<b, "send">> : b \in BadSiblings}
@@ -225,10 +240,16 @@ PairElems == TopElems \cup {E(d, <<k>>) : d \in 1..PairD, k \in PairLeaves}
 
 EthFull == {S(<<EthElem>>, x, a, b, c, d, e, f, g, h, m) :
               x \in ExtKinds, a \in BOOLEAN, b \in BOOLEAN, c \in BOOLEAN, d \in BOOLEAN,
-              e \in BOOLEAN, f \in BOOLEAN, g \in FeeVars, h \in GasVars, m \in Modes}
+              e \in BOOLEAN, f \in {"zero", "one"}, g \in FeeVars, h \in GasVars, m \in Modes}
 (* the other Ethereum transaction types: clean envelope, every fee / gas variant *)
-EthTyped == {ST(<<EthElem>>, x, FALSE, FALSE, FALSE, FALSE, FALSE, FALSE, g, h, t, m) :
+EthTyped == {ST(<<EthElem>>, x, FALSE, FALSE, FALSE, FALSE, FALSE, "zero", g, h, t, m) :
               x \in {"none", "eth"}, g \in AllFeeVars, h \in AllGasVars, t \in EthTypes \ {"legacy"}, m \in Modes}
+(* boundary magnitudes: otherwise clean legacy envelope, every timeout class x every fee class x every gas class
+   (minus the combinations EthFull already has) *)
+EthBounds == {S(<<EthElem>>, x, FALSE, FALSE, FALSE, FALSE, FALSE, t, g, h, m) :
+              x \in {"none", "eth"}, t \in TimeoutVars, g \in AllFeeVars, h \in AllGasVars, m \in Modes}
+             \ {S(<<EthElem>>, x, FALSE, FALSE, FALSE, FALSE, FALSE, t, g, h, m) :
+              x \in {"none", "eth"}, t \in {"zero", "one"}, g \in FeeVars, h \in GasVars, m \in Modes}
 
 Singles == {Cos(<<el>>, x, sg, FALSE, FALSE, m) : el \in AllElems \ {EthElem}, x \in ExtKinds, sg \in BOOLEAN, m \in Modes}
 SinglesFlags == {Cos(<<el>>, "none", TRUE, mt[1], mt[2], m) :
@@ -242,7 +263,7 @@ Triples == {Cos(<<e1, e2, e3>>, "none", TRUE, FALSE, FALSE, m) :
               e1 \in TripleElemSet, e2 \in TripleElemSet, e3 \in TripleElemSet, m \in Modes}
 
 (* the factors are pairwise disjoint by construction *)
-ShapeSpace == EthFull \cup EthTyped \cup Singles \cup SinglesFlags \cup Empty \cup Pairs \cup PairsEth \cup Triples
+ShapeSpace == EthFull \cup EthTyped \cup EthBounds \cup Singles \cup SinglesFlags \cup Empty \cup Pairs \cup PairsEth \cup Triples
 
 
 (***************************************************************************)
@@ -250,7 +271,7 @@ ShapeSpace == EthFull \cup EthTyped \cup Singles \cup SinglesFlags \cup Empty \c
 (***************************************************************************)
 (* the factors of the space are pairwise disjoint: normalise each on its own (the union of un-normalised set
    comprehensions is very slow in TLC) and concatenate; DisjointFactors re-checks the disjointness by counting *)
-ShapeSeq == SetToSeq(EthFull) \o SetToSeq(EthTyped) \o SetToSeq(Singles) \o SetToSeq(SinglesFlags) \o SetToSeq(Empty)
+ShapeSeq == SetToSeq(EthFull) \o SetToSeq(EthTyped) \o SetToSeq(EthBounds) \o SetToSeq(Singles) \o SetToSeq(SinglesFlags) \o SetToSeq(Empty)
               \o SetToSeq(Pairs) \o SetToSeq(PairsEth) \o SetToSeq(Triples)
 DisjointFactors == Cardinality(Range(ShapeSeq)) = Len(ShapeSeq)
 
@@ -281,7 +302,7 @@ ExactlyOneLane(s) == EthLane(s) # CosmosLane(s)
 EthAcceptedOnlyIfClean(s) ==
   ("eth" \in TopLeaves(s) /\ Verdict(s) = "accept") =>
      /\ Len(s.msgs) = 1
-     /\ ~s.sigs /\ ~s.sinfos /\ ~s.payer /\ ~s.granter /\ ~s.memo /\ ~s.timeout
+     /\ ~s.sigs /\ ~s.sinfos /\ ~s.payer /\ ~s.granter /\ ~s.memo /\ s.timeout = "zero"
      /\ Range(CritOpts(s.ext)) \cup Range(NonCritOpts(s.ext)) \subseteq {"eth"}
      /\ s.fee = "eq" /\ s.gas = "eq"
 
